@@ -151,12 +151,14 @@ def _tree_payload():
     if _state.get("zoo_payload") is None:
         f = _facts("zoo")
         mods = [{"name_id": m["name_id"], "parent": m["parent"], "short_id": m["short_id"], "all_ids": m["all_ids"],
-                 "evs": m["evs"], "funcs": [{"name_id": fn["name_id"], "line": fn["line"], "evs": fn["evs"]}
+                 "all_dynamic": bool(m.get("all_dynamic")), "evs": m["evs"], "funcs": [{"name_id": fn["name_id"], "line": fn["line"], "evs": fn["evs"]}
                                             for fn in m["funcs"]]} for m in f["modules"]]
         _state["zoo_payload"] = {"facts": {"modules": mods, "entries": f["entries"], "n_builtins": f["n_builtins"],
                                            "private": f["private"], "n_bindable": f["n_bindable"],
                                            "slot_bits": f["slot_bits"], "venv_env": f["venv_env"], "envs": f["envs"],
-                                           "names": f["names"], "ext": f["ext"]}}
+                                           "names": f["names"], "ext": f["ext"], "classes": f["classes"],
+                                           "exc_root": f["exc_root"], "raises": f["raises"],
+                                           "maybe_unbound": f["maybe_unbound"]}}
     return _state["zoo_payload"]
 
 
@@ -174,9 +176,10 @@ def _greads_of(facts):
     tab = {}
     for m in facts["modules"]:
         for f in m["funcs"]:
+            reads = {names[e[1]] for e in f["evs"] if e[0] in ("load", "attr")} | \
+                {names[e[2]] for e in f["evs"] if e[0] == "alias"}
             tab[(m["name"], f["name"], f["line"])] = sorted(
-                {names[e[1]] for e in f["evs"] if e[0] in ("load", "attr")
-                 and not names[e[1]].endswith(extract_facts.LOCAL_SUFFIX)})
+                r for r in reads if not r.endswith(extract_facts.LOCAL_SUFFIX))
     return tab
 
 
@@ -285,6 +288,8 @@ def _run_probe(mode, pkg, env, tree="repo"):
     # -I: isolated (no PYTHONPATH, no script directory on sys.path); the probe puts the tree under test first
     opts = dict(_state["random"] or {}) if mode != "static" else {}
     opts["absent"] = _absent(env, tree)
+    if mode == "static":
+        opts["audited"] = [[u["mod"], u["fn"], u["var"]] for u in facts["maybe_unbound"] if u["audited"]]
     extra = [json.dumps(opts)]
     p = subprocess.run([_PY, "-I", _PROBE, str(TREES[tree]), mode, pkg, json.dumps(facts["subpackages"])] + extra,
                        capture_output=True, text=True, timeout=600, env=penv, cwd="/tmp")
@@ -416,7 +421,8 @@ def run_impl(case):
                 "source_counts": _source_counts(tree), "translator_coverage": _translator_coverage(tree)}
     if kind == "entry":
         pr = _probe("static", case["entry"], case["env"], tree)
-        return {"import": pr["import"], "star": pr["star"], "loaded": pr["loaded"], "ns": pr["ns"]}
+        return {"import": pr["import"], "star": pr["star"], "loaded": pr["loaded"], "ns": pr["ns"],
+                "loaded_by_star": pr.get("loaded_by_star", []), "exc_classes": pr.get("exc_classes", {})}
     if kind == "func":
         pr = _probe("static", case["entry"], case["env"], tree)
         ent = pr["funcs"].get(f"{case['module']}|{case['func']}|{case['line']}")
@@ -467,6 +473,9 @@ def compare(case, res, replies):
             return "layoutOk is false for the generated facts"
         if m.get("ext") != facts["ext"] or m.get("envs") != facts["envs"]:
             return f"environments of the Lean facts {m.get('ext')} {m.get('envs')} differ from the translator's"
+        if m.get("allDynamic"):
+            return (f"__all__ of {m['allDynamic']} is computed: the advertised names are not known statically and the "
+                    f"theorems about them say nothing (write __all__ as a literal list)")
         # translator coverage: every Name / Attribute / import statement / function of the source is accounted for
         for k, n_src in res["source_counts"].items():
             c = res["translator_coverage"].get(k, {})
@@ -506,11 +515,17 @@ def compare(case, res, replies):
             names = set()
             for s in res["star"].values():
                 names |= set(s["names"])
-            model_names = set(m["ns"].get(main, {})) - {"lena"}     # the entry's own `import lena.X` binds `lena`
+            model_names = set(m.get("starNames", []))
+            model_names -= {"lena"}
             names -= {"lena"}
             if names != model_names:
                 return (f"names bound by the star import: impl-only {sorted(names - model_names)}, "
                         f"model-only {sorted(model_names - names)}")
+        # __all__ itself, and the documented exceptions
+        by = {mm["name"]: mm for mm in facts["modules"]}
+        for pkg, st in res["star"].items():
+            if "all" in st and by.get(pkg, {}).get("all") is not None and sorted(st["all"]) != sorted(by[pkg]["all"]):
+                return f"{pkg}.__all__: interpreter {sorted(st['all'])}, translator {sorted(by[pkg]['all'])}"
         if bool(m.get("exported")) != all(not s.get("missing") for s in res["star"].values()):
             return f"exportedB = {m.get('exported')} but the interpreter misses {[s.get('missing') for s in res['star'].values()]}"
         # the static import closure is the set of loaded modules
@@ -543,14 +558,32 @@ def compare(case, res, replies):
         if not res.get("present"):
             return None if m.get("missing") or not r else f"the model has this function, the bytecode of {case['module']} has not"
         if m.get("missing"):
-            return (f"the bytecode loads {res['loads']} global names but the translator emitted no events"
-                    if res["loads"] or res["problems"] else None)
+            rest = [p for p in res["problems"] if p["kind"] not in ("BuiltinRaise", "NonLenaRaise", "MaybeUnbound")]
+            if res["loads"] or rest:
+                return f"the bytecode loads {res['loads']} global names but the translator emitted no events"
+            mr = sorted(m.get("badRaises", []))
+            pr_ = sorted(p["line"] for p in res["problems"] if p["kind"] in ("BuiltinRaise", "NonLenaRaise"))
+            mu = sorted(m.get("unaudited", []))
+            pu = sorted(p["name"] for p in res["problems"] if p["kind"] == "MaybeUnbound")
+            if mr != pr_ or mu != pu:
+                return f"raise / possibly-unbound facts: model {mr} {mu}, interpreter {pr_} {pu}"
+            return None
         if not r:
             return "no reachable state in the model"
         mine = _fn_greads(tree).get((case["module"], case["func"], case["line"]), [])
         if sorted(res.get("greads", [])) != mine:
             return (f"global names read: bytecode-only {sorted(set(res.get('greads', [])) - set(mine))}, "
                     f"translator-only {sorted(set(mine) - set(res.get('greads', [])))}")
+        mr = sorted(m.get("badRaises", []))
+        pr_ = sorted(p["line"] for p in res["problems"] if p["kind"] in ("BuiltinRaise", "NonLenaRaise"))
+        if mr != pr_:
+            return f"raise statements that do not name a documented exception: model lines {mr}, interpreter lines {pr_}"
+        mu = sorted(m.get("unaudited", []))
+        pu = sorted(p["name"] for p in res["problems"] if p["kind"] == "MaybeUnbound")
+        if mu != pu:
+            return f"possibly-unbound locals that are not audited: model {mu}, bytecode {pu}"
+        res = dict(res, problems=[p for p in res["problems"]
+                                  if p["kind"] not in ("BuiltinRaise", "NonLenaRaise", "MaybeUnbound")])
         bad_model = [x for x in r if x != "ok" and x != "not-callable"]
         if r[0] == "not-callable":
             return "the model does not consider the function callable after the import of the entry"
@@ -595,6 +628,10 @@ def _oracle(case, res):
         if res["import"] != "ok":
             what = "importing all sub-packages" if e == "all" else f"`import {e}`"
             return f"{what} in a fresh interpreter fails: {res['import']['type']}: {res['import']['msg']}"
+        bad = sorted(k for k, ok in res.get("exc_classes", {}).items() if not ok)
+        if bad:
+            return (f"lena.core.exceptions: {bad} do(es) not derive from LenaException (all Lena exceptions derive "
+                    f"from LenaException)")
         for pkg, s in res["star"].items():
             if s.get("missing"):
                 return f"{pkg}.__all__ advertises names that do not exist: {s['missing']}"
@@ -605,7 +642,16 @@ def _oracle(case, res):
         if res.get("present") and res["problems"]:
             p = res["problems"][0]
             where = f"{case['module']}, function {case['func']} (line {case['line']})"
-            if p["kind"] == "NameError" and p.get("after_call_of"):
+            if p["kind"] == "BuiltinRaise":
+                what = (f"line {p['line']}: raises the builtin {p['name']} although lena.core documents a LenaException "
+                        f"subclass that wraps it (invalid arguments and missing keys are reported with the documented "
+                        f"LenaException subclasses)")
+            elif p["kind"] == "NonLenaRaise":
+                what = f"line {p['line']}: raises {p['name']}, a lena class that does not derive from LenaException"
+            elif p["kind"] == "MaybeUnbound":
+                what = (f"local variable '{p['name']}' may be unbound when it is read (CPython cannot prove it bound and "
+                        f"the read is not among the audited ones): possible UnboundLocalError, a NameError")
+            elif p["kind"] == "NameError" and p.get("after_call_of"):
                 what = (f"global name '{p['name']}' is deleted by a call of {p['after_call_of']} (`global {p['name']}; "
                         f"del {p['name']}`): not defined when this function is called afterwards")
             elif p["kind"] == "NameError" and p.get("inner"):
